@@ -152,7 +152,16 @@ def label_grammar(y, pair_labels):
           ('alphabet{-1,0,1}', base(np.array([-1, 0, 1]), n)),
           ('alphabet{-2,2}', base(np.array([-2, 2]), n)),
           ('alphabet{0.5}', np.full(n, 0.5)),
-          ('alphabet{strings}', base(np.array(['a', 'b']), n))]
+          ('alphabet{strings}', base(np.array(['a', 'b']), n)),
+          # non-numeric entries that *read* like the legal labels
+          ("alphabet{'1'|'-1'}", base(np.array(['1', '-1']), n)),
+          ("alphabet{'1.0'|'-1.0'} list", base(np.array(['1.0', '-1.0']),
+                                               n).tolist()),
+          ("alphabet{b'1'|b'-1'}", base(np.array([b'1', b'-1']), n)),
+          ("alphabet{'+1'|'-1'} object", base(np.array(['+1', '-1'],
+                                                       dtype=object), n)),
+          ('alphabet{inf}', base(np.array([1.0, -1.0, np.inf]), n)),
+          ('alphabet{1+0j}', base(np.array([1 + 0j, -1 + 1j]), n))]
   return g
 
 
@@ -282,6 +291,10 @@ def run_case(spec, j):
                                        pairs, True, with_prep, 2))})
 
 
+INT_DTYPES = ['uint8', 'int8', 'uint16', 'int16', 'uint32', 'int32', 'uint64',
+              'int64']
+
+
 def _forms(A):
   A = np.asarray(A)
   out = [('list', A.tolist()), ('fortran', np.asfortranarray(A))]
@@ -311,8 +324,6 @@ def _positive(j, name, f, est, ds, X, rng, det):
     M0, M2 = L0.T.dot(L0), L2.T.dot(L2)
     j.close('C06.equivalent-forms.fit', M2, M0,
             1e-7 * max(np.abs(M0).max(), 1e-300), dict(det, form=label))
-  if np.all(X == np.round(X)):
-    pass
   Q = X[rng.randint(0, len(X), size=(10, 2))]
   with Quiet():
     ref = est.pair_distance(Q)
@@ -328,6 +339,53 @@ def _positive(j, name, f, est, ds, X, rng, det):
     j.close('C06.equivalent-forms.query',
             est.transform(Qi[:, 0].astype(np.int32)), tr,
             1e-12 * np.abs(tr) + 1e-12 * scale, dict(det, form='int32'))
+    # every integer dtype that can hold the numbers, narrow and unsigned ones
+    # included: the numbers 0..120 fit all of them, their differences do not
+    # fit int8 and are negative half of the time
+    d = X.shape[1]
+    Qn = rng.randint(0, 121, size=(10, 2, d))
+    refn = est.pair_distance(Qn.astype(float))
+    trn = est.transform(Qn[:, 0].astype(float))
+    fun = est.get_metric()
+    for dt in INT_DTYPES:
+      alt = Qn.astype(dt)
+      j.close('C06.equivalent-forms.query', est.pair_distance(alt), refn,
+              1e-12 * np.abs(refn) + 1e-12 * scale,
+              dict(det, form=dt, method='pair_distance'))
+      j.close('C06.equivalent-forms.query', est.transform(alt[:, 0]), trn,
+              1e-12 * np.abs(trn) + 1e-12 * scale,
+              dict(det, form=dt, method='transform'))
+      j.close('C06.equivalent-forms.query', fun(alt[0, 0], alt[0, 1]),
+              refn[0], 1e-12 * np.abs(refn[0]) + 1e-12 * scale,
+              dict(det, form=dt, method='get_metric()'))
+  # the same integer-valued training data as float64 and as integer arrays
+  A0 = np.asarray(f.args[0])
+  Xs = np.round(A0 * (8.0 if A0.dtype.kind == 'f' else 1.0))
+  Xs = Xs - Xs.min()
+  hi = Xs.max()
+  e0 = clone(est)
+  with Quiet():
+    try:
+      e0.fit(*((Xs.astype(float),) + tuple(f.args[1:])), **f.kwargs)
+    except Exception:
+      j.skip('C06.equivalent-forms.fit', 'integer-valued-reference-fit-raised')
+      return
+  Mr = e0.get_mahalanobis_matrix()
+  for dt in [t for t in INT_DTYPES if hi <= np.iinfo(t).max][:4]:
+    e2 = clone(est)
+    with Quiet():
+      try:
+        e2.fit(*((Xs.astype(dt),) + tuple(f.args[1:])), **f.kwargs)
+      except Exception as e:
+        j.violated('C06.equivalent-forms.fit',
+                   dict(det, form=dt, raised=repr(e)[:200]))
+        continue
+    if e2.components_.shape != e0.components_.shape:
+      j.violated('C06.equivalent-forms.fit', dict(det, form=dt,
+                                                  shape=e2.components_.shape))
+      continue
+    j.close('C06.equivalent-forms.fit', e2.get_mahalanobis_matrix(), Mr,
+            1e-7 * max(np.abs(Mr).max(), 1e-300), dict(det, form=dt))
 
 
 LEVEL_TEXT = ('Exploration by runtime monitoring with a completely enumerated '
